@@ -272,6 +272,18 @@ func (s *Server) serveStream(ctx context.Context, r io.Reader, w io.Writer, req 
 		// pointer batch is a zero-row batch with no usable input data,
 		// so passing it to the user handler would silently corrupt the
 		// computation. End the stream with an error response instead.
+		if req.Shm == nil && IsShmPointerBatch(inputBatch) {
+			// No segment was engaged for this call, so the zero-row pointer
+			// cannot be resolved. Fail the stream as serveOne does for a
+			// pointer request rather than hand the handler an empty input.
+			streamErr = &RpcError{
+				Type:    "IOError",
+				Message: "received shm pointer batch but no segment is attached (transport negotiation mismatch)",
+			}
+			s.logIPCWriteErr("stream-shm-resolve-error", req.Method,
+				writeErrorBatch(outputWriter, outputSchema, streamErr, s.serverID, req.RequestID, s.debugErrors))
+			break
+		}
 		if req.Shm != nil && IsShmPointerBatch(inputBatch) {
 			resolved, releaseOff, release, rerr := ResolveShmBatch(inputBatch, req.Shm)
 			if rerr != nil {
